@@ -88,6 +88,14 @@ def main():
         p = lib.write_replay(pid, "missing-theorems", {"property": pid, "theorems": theorems, "loaded": discharged})
         violations.append((p, True, "some theorems of %s did not load" % P["props_file"]))
 
+    chk_txt = None
+    if ok_c and tier == "thorough" and not os.environ.get("VERIF_NO_COQCHK"):
+        ok_chk, chk_txt, t_chk = lib.coqchk(["Exo." + P["props_module"]])
+        log("[%s] coqchk: %s (%.0fs)" % (pid, {True: "ok", False: "FAILED", None: "timeout"}[ok_chk], t_chk))
+        if ok_chk is False:
+            p = lib.write_replay(pid, "coqchk", {"property": pid, "broken": "coqchk rejects the compiled development", "output": chk_txt})
+            violations.append((p, True, "coqchk rejects %s" % P["props_module"]))
+
     # 4. correspondence + monitors on the implementation ---------------------------------------------
     total_eval = 0
     distinct_nt = set()
@@ -232,6 +240,7 @@ def main():
             "input_distribution": distributions,
             "explanation": P["explanation"],
             "known_findings_reported": sorted(reported_known),
+            "coqchk": chk_txt,
             "timing_s": {"harness_build": round(t_h, 1), "suites": round(t_suites, 1)},
         },
         "assumptions": P["assumptions"],
